@@ -366,7 +366,7 @@ def function(draw, lang, fid, name, cls=None, kind="func", max_params=3, for_for
 
 @st.composite
 def library(draw, lang=None, nfunc=(4, 10), for_fortran=True, with_class=None, rows=None, results=None, types=None,
-            ovl_sigs=None, with_overloads=None, with_template=None):
+            ovl_sigs=None, with_overloads=None, with_template=None, with_coercion=False):
     lang = lang or draw(st.sampled_from(["c++", "c++", "c"]))
     lib = dict(name="XLib", language=lang, funcs=[], classes=[], cheader="xlib.hpp" if lang == "c++" else "xlib.h")
     n = draw(st.integers(*nfunc))
@@ -381,6 +381,10 @@ def library(draw, lang=None, nfunc=(4, 10), for_fortran=True, with_class=None, r
         fid += len(grp)
         lib["funcs"].append(draw(default_func(lang, fid, "dfltFunc", for_fortran)))
         fid += 1
+    if with_coercion and lang == "c++":
+        grp = draw(coercion_group(lang, fid, "pickFunc", for_fortran))
+        lib["funcs"] += grp
+        fid += len(grp)
     if for_fortran and rows is None and draw(st.booleans()):
         lib["funcs"].append(draw(pointer_func(lang, fid, "ptrFunc", for_fortran)))
         fid += 1
@@ -492,6 +496,31 @@ def pointer_func(draw, lang, fid, name, for_fortran=True):
         outs["rv" if as_result else "grid"] = dict(shape=shape, data=data)
         f["calls"].append(dict(inputs={}, outputs=outs))
     return f
+
+
+@st.composite
+def coercion_group(draw, lang, fid, name, for_fortran=True):
+    """Two overloads that C++ tells apart by exact match: f(int a, int b = <default>) declared first, f(double a)
+    second.  An integer argument selects the first (with or without its default), a floating one the second - in
+    C++, and so in every wrapper (a dispatcher that tries the members in a different order lets the integer be
+    converted)."""
+    has_ret = draw(st.booleans())
+    ret = dict(row="N", T="int", ctype="int", attrs="") if has_ret else None
+    p0 = P("a0", "N1", "int", "int a0")
+    T, text, val = draw(st.sampled_from([("int", "3", 3), ("int", "0", 0), ("long", "7", 7)]))
+    p1 = P("d0", "N1", T, "%s d0" % T)
+    p1["default"] = text
+    p1["default_value"] = val
+    f0 = dict(name=name, fid=fid, cls=None, kind="func", params=[p0, p1], ret=(dict(ret) if ret else None), const=False,
+              suffix=None, calls=[], overload_index=0, noverload=2, ndefault=1, ovl_pos_base=0)
+    for nargs in (1, 2, 1):
+        c = draw(call_vector(f0, for_fortran))
+        c["nargs"] = nargs
+        f0["calls"].append(c)
+    f1 = dict(name=name, fid=fid + 1, cls=None, kind="func", params=[P("a0", "N1", "double", "double a0")],
+              ret=(dict(ret) if ret else None), const=False, suffix=None, calls=[], overload_index=1, noverload=2, ovl_pos_base=2)
+    f1["calls"] = [draw(call_vector(f1, for_fortran)) for _ in range(2)]
+    return [f0, f1]
 
 
 TMPL_SHAPES = ["arg", "arg+plain", "result", "two", "ptr-result"]
